@@ -47,6 +47,22 @@ CHECKS = {
    technique="TLA+ trace validation (SampleCacheAbs.tla) of every read/take form over caches containing unintelligible changes; supervisor turns a call that does not return into a trace event",
    text="Undecodable payloads, unknown representation identifiers and disposes by unseen key hash are placed at random positions among values and disposes of two writers, for reliable and best-effort readers; each of the 8 DataReader forms, both async streams and SimpleDataReader::try_take_one is called at random points and then until empty, under a supervisor with a progress watchdog. TLC validates: every call returns, an unintelligible change is never delivered and is reported at most once, every intelligible change is delivered.",
    note="with_key readers (no_key wraps the same code); 8 s without progress = the call did not return"),
+ "C16": dict(level="model_checking", engine="tlc+crypto-driver (feature security)", design="§4 C16", sec=True,
+   technique="symbolic TLA+ model of key registration / token exchange / encode / frame / tamper / decode (CryptoKeys.tla) model checked with TLC; behaviours replayed on real CryptographicBuiltin instances through the real DATA/DATAFRAG/secure framing; byte- and bit-level refinement of every tamper class; TLC trace validation",
+   text="TLC explores the complete registration space of three plugin instances for every level x GMAC/GCM x origin authentication x AES128/256 and checks that decode yields plaintext iff untampered, keyed and (with origin authentication) carrying a valid receiver-specific MAC for this receiver; ~9000 behaviours are replayed on real plugins exchanging real tokens, each symbolic tamper class refined by every byte (every bit for MACs), payload lengths 0..67 incl. lengths not divisible by 4 through real framing; outcomes compared as classes Plain/NoData by Trace_CryptoKeys.tla.",
+   note="cipher strength trusted (ring/openssl); volatile endpoints and unregister not exercised; known finding S10 (unaligned protected payload undecodable after DATA padding)"),
+ "C17": dict(level="model_checking", engine="tlc+gate-driver (feature security)", design="§4 C17", sec=True,
+   technique="TLA+ transcription of the MessageReceiver secure state machine (SecGate.tla) with the property stated on wire content (SecGateSem.tla), model checked; explored transitions replayed as datagrams into a real MessageReceiver with real SecurityPlugins; TLC trace validation of every delivery",
+   text="TLC checks Inv_Protected / Inv_Flows over all sequences of <=4 submessages x governance kinds; every explored transition is rendered as a real datagram (plain, correctly / partially / wrongly wrapped by the plugin's own encode operations) and injected into a real MessageReceiver with builtin plugins configured from signed governance fixtures and 10 real Readers; deliveries observed at TopicCaches, writer proxies and the acknack channel are judged by Trace_SecGate.tla.",
+   note="HEARTBEAT_FRAG/NACK_FRAG, origin-authentication kinds and a second distinct participant not covered; fixtures signed once with the CA shipped in examples/"),
+ "C18": dict(level="model_checking", engine="tlc+access-driver (feature security)", design="§4 C18", sec=True,
+   technique="decision function transcribed in TLA+ (AccessDecision.tla: fnmatch patterns, domain values/ranges, first applicable rule, first valid grant, governance switches); TLC enumerates document families; each rendered as real XML and decided by the real parsers and check_* functions; signature clause by exhaustive alteration of signed fixtures; TLC trace validation",
+   text="TLC enumerates 3926 (thorough 7918) abstract permissions/governance documents with 18-81 queries each; every one is rendered as real XML, loaded through the real parsers below the signature check and decided by the real check_create_* / check_remote_* code; Trace_AccessControl.tla judges every decision with the TLA+ decision function. Signature clause: every single-byte flip/deletion/duplication of five signed fixtures, foreign CA, foreign signer, spliced signatures through the real S/MIME verification; oracle: never accepted with other content or another signer.",
+   note="four ambiguous readings left open (entities without partitions etc.); data tags, join checks, validate_remote_permissions not covered"),
+ "C19": dict(level="model_checking", engine="tlc+auth-driver (feature security)", design="§4 C19", sec=True,
+   technique="implementation-shaped TLA+ model of the three-message handshake with a Dolev-Yao attacker (Handshake.tla), safety + liveness under fairness model checked; every attacker schedule replayed on two real AuthenticationBuiltin plugins; byte-level sweep of all fields; TLC trace validation",
+   text="TLC explores every attacker schedule with <=3 (4) attacker deliveries (alter, forge, replay from an earlier session, reflect, reorder) and checks: completion only through clean copies, equal secrets, no secret before completion, genuine handshake completes afterwards (modulo the three named deviations); all 1679 behaviours plus a sweep flipping every byte of every field of the three messages, foreign-CA / insider / unbound-GUID certificates and random schedules run on two real plugins with fixture identities, get_shared_secret read after every call, validated by Trace_Handshake.tla.",
+   note="EC identities / ECDH only; certificate expiry and revocation not exercised; known findings S7, S13, S14"),
 }
 NOT_APPLICABLE = {}
 
